@@ -1,2 +1,39 @@
+/* radiotap: parse (C09), generate (C10, C07) */
 #include "h.h"
-const struct op ops_rtap[] = { {NULL, NULL} };
+
+void print_rtinfo(const struct libwifi_radiotap_info *i) {
+    printf("len=%u ch=%u,%u,%u,%u rate=%u,%d ant=%u[", i->length, i->channel.freq, i->channel.flags,
+           i->channel.center, i->channel.band, (uint8_t) i->rate_raw, (int) (i->rate * 2), i->antenna_count);
+    for (int k = 0; k < i->antenna_count && k < LIBWIFI_MAX_RADIOTAP_ANTENNAS; k++)
+        printf("%s%u:%u", k ? "," : "", i->antennas[k].antenna_number, (uint8_t) i->antennas[k].signal);
+    printf("] sig=%u fl=%u ext=%u rx=%u tx=%u mcs=%u,%u,%u txp=%u ts=%llu,%u,%u,%u rts=%u data=%u present=%u",
+           (uint8_t) i->signal, i->flags, i->extended_flags, i->rx_flags, i->tx_flags, i->mcs.known, i->mcs.flags,
+           i->mcs.mcs, (uint8_t) i->tx_power, (unsigned long long) i->timestamp.timestamp, i->timestamp.accuracy,
+           i->timestamp.unit, i->timestamp.flags, i->rts_retries, i->data_retries, i->present);
+}
+
+/* rtap <hex>: libwifi_parse_radiotap_info on an exactly sized block, output object pre-filled */
+static void op_rtap(int nt, char **t) {
+    (void) nt;
+    size_t n; unsigned char *b = hexbuf(t[1], &n);
+    struct libwifi_radiotap_info info; memset(&info, 0x5A, sizeof info);
+    int r;
+    LIB(r = libwifi_parse_radiotap_info(&info, b, n));
+    if (r != 0) printf("rtap err"); else { printf("rtap ok "); print_rtinfo(&info); }
+    __real_free(b);
+}
+
+static void op_rssi(int nt, char **t) {
+    (void) nt;
+    size_t n; unsigned char *b = hexbuf(t[1], &n);
+    int8_t r;
+    LIB(r = libwifi_parse_radiotap_rssi(b));
+    printf("rssi %u", (uint8_t) r);
+    __real_free(b);
+}
+
+const struct op ops_rtap[] = {
+    {"rtap", op_rtap},
+    {"rssi", op_rssi},
+    {NULL, NULL},
+};
